@@ -17,7 +17,7 @@ PROPS = {
              "(damped_jacobi, spai0, gauss_seidel, ilu0, iluk, ilup, chebyshev): symmetry max|B-B^T| <= 64 (16 + n + kappa_2) u max|B| and lambda_min(sym B) > 0 when npre == npost, "
              "rho(I - B A) < 1 - 1e-10 always (symmetric eigen-solver on L^T B L when npre == npost, general eigenvalues otherwise). "
              "non-trivial: the hierarchy has >= 2 levels. distinct = distinct decoded choice sequences (64-bit hash), united over shards. "
-             "c02_cycle_block: the same clauses on builtin<static_matrix<double,2,2>> (3 SPD block families: scalar M-matrix stored with 2x2 blocks, block graph Laplacian with non-commuting SPD blocks, A (x) S; coarsenings sa/aggregation/emin, relaxations spai0, damped_jacobi, gauss_seidel, ilu0, iluk, ilup, chebyshev (+ ilut for linearity), B extracted through the 2n scalar unit vectors, dense oracles on the scalar expansion, rounding constants scaled by the squared condition number of the worst diagonal block); additional regions F-sa-block-singular-diagonal, F-emin-block-adjoint. "
+             "c02_cycle_block: the same clauses on builtin<static_matrix<double,2,2>> (3 SPD block families: scalar M-matrix stored with 2x2 blocks, block graph Laplacian with non-commuting SPD blocks, A (x) S; coarsenings sa/aggregation/emin, relaxations spai0, damped_jacobi, gauss_seidel, ilu0, iluk, ilup, chebyshev (+ ilut for linearity), B extracted through the 2n scalar unit vectors, dense oracles on the scalar expansion, rounding constants scaled by the squared condition number of the worst diagonal block and, for emin, by 1/p^2 with p the smallest column maximum of a prolongation operator (cancelling columns)); additional regions F-sa-block-singular-diagonal, F-emin-block-adjoint. "
              "Known-finding regions (counted in excluded_known, the remaining clauses are asserted before the exclusion): F-agg, F-emin-residue (emin aggregates whose A_f P_tent column is a non-zero rounding residue; exact zeros are repaired in /repo by a58f297 and asserted), F-smoother-coarse, F-rs-abseps, F-emin-pointwise-rank-deficient (emin with aggr.block_size > 1: rank-deficient transfer operators).",
         assumptions=["Eigen's symmetric and general eigenvalue solvers are accurate to 1e-10 on n <= 200",
                      "rounding scale of one cycle application is (n + kappa_2(A)) u ||B|| ||f|| (measured maxima: 2.5 for linearity, 5.1 for symmetry, over 1e5 cases)",
